@@ -169,7 +169,11 @@ func genDictCase(t *rapid.T) dictCase {
 		if fi >= 1 {
 			maxT = 4
 		}
-		nTerms := rapid.IntRange(0, maxT).Draw(t, fname+"nTerms")
+		minT := 0
+		if fi == 0 && !gen.Chance(t, "fewTerms", 15) {
+			minT = 4 // most cases: enough terms for automata and ranges to cut a proper subset
+		}
+		nTerms := rapid.IntRange(minT, maxT).Draw(t, fname+"nTerms")
 		seen := map[string]bool{}
 		perDoc := make([][]spec.TokenSpec, nDocs)
 		for k := 0; k < nTerms; k++ {
@@ -222,7 +226,8 @@ func genDictCase(t *rapid.T) dictCase {
 	}
 	c.ChunkMode = gen.ChunkMode(t, "cm")
 
-	boundPool := append([]string{"", "\x00", "a", "b", "c", "\x7f", "é", "zz", "ab", "a\x00"}, allTerms...)
+	// bounds: mostly existing terms (so ranges cut the term set), plus neighbours
+	boundPool := append(append([]string{}, allTerms...), "", "\x00", "a", "b", "c", "\x7f", "é", "zz", "ab", "a\x00")
 	nQ := rapid.IntRange(1, 6).Draw(t, "nQueries")
 	for i := 0; i < nQ; i++ {
 		ql := fmt.Sprintf("q%d", i)
